@@ -135,3 +135,83 @@ Theorem C08_program_limit :
        hdr_events hdr ++ emit cf p nt (spec expr get post (slice (c_skip cf) (c_take cf) rows0))).
 Proof. exact program_limit. Qed.
 Print Assumptions C08_program_limit.
+
+(* several inputs (file arguments): the whole-program slice theorems for ANY list of inputs *)
+From Jawk Require Import Base F64 Json Reader JsonParser Ctx Printer Fn Expr Chain ExprParser Go PipelineSpec OrderProofs SorterProofs ChainProofs GroupUniqProofs GoProofs BuildProofs FilesProofs ProgramProofs ProgramFilesProofs.
+
+(* the limited run and the unlimited run over the same list of inputs: same header, the rows behind the limiter are built from rows S..S+T-1 of the rows in front of it *)
+Theorem C08_program_limit_files :
+  forall (cf : cfg) (ins : list (option str * list ev)) (b : bool) (p : printer)
+      (sts : list stage) (hdr : list byte),
+    c_on_error cf = OnIgnore ->
+    Forall (fun i : option str * list ev => Forall (fun e : ev => e <> EErr) (snd i)) ins ->
+    build_pipeline cf = Some (p, sts) ->
+    start_output p (titles expr sts []) (c_rowsep cf) = Some hdr ->
+    (forall t : N, c_take cf = Some t -> (c_skip cf + t <= 18446744073709551615)%N) ->
+    exists pre0 post : list stage,
+      build_pipeline (no_limit cf) = Some (p, pre0 ++ post) /\
+      start_output p (titles expr (pre0 ++ post) []) (c_rowsep (no_limit cf)) = Some hdr /\
+      titles expr (pre0 ++ post) [] = titles expr sts [] /\
+      build_kind cf KGroup = Some post /\
+      (let cs := fst (ctxs_of_inputs cf ins 0) in
+       let nt := length (titles expr sts []) in
+       let rows0 := spec expr get pre0 cs in
+       spec expr get sts cs = spec expr get post (slice (c_skip cf) (c_take cf) rows0) /\
+       g_result (go (no_limit cf) ins b) = GOk /\
+       g_events (go (no_limit cf) ins b) = hdr_events hdr ++ emit cf p nt (spec expr get post rows0) /\
+       g_result (go cf ins b) = GOk /\
+       g_events (go cf ins b) =
+       hdr_events hdr ++ emit cf p nt (spec expr get post (slice (c_skip cf) (c_take cf) rows0))).
+Proof. exact program_limit_files. Qed.
+Print Assumptions C08_program_limit_files.
+
+(* without a collector: the rows of the limited run are rows S..S+T-1 of the rows of the unlimited run, over any list of inputs *)
+Theorem C08_program_slice_files :
+  forall (cf : cfg) (ins : list (option str * list ev)) (b : bool) (p : printer)
+      (sts : list stage) (hdr : list byte),
+    c_on_error cf = OnIgnore ->
+    Forall (fun i : option str * list ev => Forall (fun e : ev => e <> EErr) (snd i)) ins ->
+    build_pipeline cf = Some (p, sts) ->
+    start_output p (titles expr sts []) (c_rowsep cf) = Some hdr ->
+    (forall t : N, c_take cf = Some t -> (c_skip cf + t <= 18446744073709551615)%N) ->
+    c_group cf = None ->
+    exists sts0 : list stage,
+      build_pipeline (no_limit cf) = Some (p, sts0) /\
+      start_output p (titles expr sts0 []) (c_rowsep (no_limit cf)) = Some hdr /\
+      (let cs := fst (ctxs_of_inputs cf ins 0) in
+       let nt := length (titles expr sts []) in
+       let rows0 := spec expr get sts0 cs in
+       spec expr get sts cs = slice (c_skip cf) (c_take cf) rows0 /\
+       g_result (go (no_limit cf) ins b) = GOk /\
+       g_events (go (no_limit cf) ins b) = hdr_events hdr ++ emit cf p nt rows0 /\
+       g_result (go cf ins b) = GOk /\
+       g_events (go cf ins b) = hdr_events hdr ++ slice (c_skip cf) (c_take cf) (emit cf p nt rows0)).
+Proof. exact program_slice_files. Qed.
+Print Assumptions C08_program_slice_files.
+
+(* with a collector: the one collection is built from that slice of the ungrouped unlimited rows, over any list of inputs *)
+Theorem C08_program_slice_collect_files :
+  forall (cf : cfg) (g : option (list byte)) (ins : list (option str * list ev))
+      (b : bool) (p : printer) (sts : list stage) (hdr : list byte),
+    c_group cf = Some g ->
+    c_on_error cf = OnIgnore ->
+    Forall (fun i : option str * list ev => Forall (fun e : ev => e <> EErr) (snd i)) ins ->
+    build_pipeline cf = Some (p, sts) ->
+    start_output p (titles expr sts []) (c_rowsep cf) = Some hdr ->
+    (forall t : N, c_take cf = Some t -> (c_skip cf + t <= 18446744073709551615)%N) ->
+    exists (pre00 : list stage) (o : option expr),
+      group_key g = Some o /\
+      hdr = [] /\
+      build_pipeline (no_group (no_limit cf)) = Some (p, pre00) /\
+      start_output p (titles expr pre00 []) (c_rowsep (no_group (no_limit cf))) = Some [] /\
+      (let cs := fst (ctxs_of_inputs cf ins 0) in
+       let rows00 := spec expr get pre00 cs in
+       g_result (go (no_group (no_limit cf)) ins b) = GOk /\
+       g_events (go (no_group (no_limit cf)) ins b) = emit cf p (length (titles expr pre00 [])) rows00 /\
+       g_result (go cf ins b) = GOk /\
+       g_events (go cf ins b) =
+       [OOut
+          (print_row p 0 (c_rowsep cf)
+             (new_with_no_context (collection o (slice (c_skip cf) (c_take cf) rows00))))]).
+Proof. exact program_slice_collect_files. Qed.
+Print Assumptions C08_program_slice_collect_files.
